@@ -503,6 +503,13 @@ def run(ctx, rep):
         for s in S.blocks[bi]['stmts']:
             if s['k'] == 'assign' and s['rv']['k'] == 'agg' and (s['rv'].get('adt') or '').endswith('ops::range::Range'):
                 skip_toks = d.of_operand(s['rv']['ops'][1])
+    for b_, t_ in S.calls():
+        c_ = t_.get('callee') or ''
+        # the same count written as `a..=n`, `.take(n)`, `.nth(n)`
+        if c_.endswith('RangeInclusive::new') and len(t_['args']) == 2 and skip_toks is None:
+            skip_toks = d.of_operand(t_['args'][1])
+        elif c_.endswith(('Iterator::take', 'Iterator::nth', 'Iterator::skip')) and len(t_['args']) == 2 and skip_toks is None:
+            skip_toks = d.of_operand(t_['args'][1])
     if walk_iter and skip_toks is not None:
         why_d = 'no same-cluster shortcut found'
         for bi in S.reachable():
